@@ -763,7 +763,8 @@ def crash_as_violation(ctx, ps, outdir, mode, mon):
             first = [ln for ln in text.splitlines() if ln.startswith("panic:") or ln.startswith("fatal error:")][:1]
             ctx.add_violation(mon, scen, [first[0][:200] if first else "panic"])
         elif "scenarios hung" in text or "VF-HANG" in text:
-            ctx.add_violation(mon.replace("Panic", "Hang"), scen, ["real-time watchdog"])
+            hung = re.findall(r"VF-HANG scenario=(\S+)", text)
+            ctx.add_violation(mon.replace("Panic", "Hang"), hung[0] if hung else scen, ["real-time watchdog", hung[:8]])
         else:
             raise L.MachineryError("harness %s failed:\n" % mode + text[-3000:])
 
@@ -805,7 +806,7 @@ def c03(ctx):
     # recv component: inbound-driven structure must not panic either
     recv_component(ctx, "C03")
     ctx.validate(files)
-    ctx.notes.append("adversary: 8 association situations x 48 invalid/misplaced packet classes x DATA/I-DATA x both endpoints, each followed by normal "
+    ctx.notes.append("adversary: 8 association situations x 58 invalid/misplaced packet classes x DATA/I-DATA x both endpoints, each followed by normal "
                      "traffic to completion; fuzz: seeded mutations (bit flips, truncation, length edits, splices, garbage) of genuine packets; "
                      "'all byte strings' is sampled, not enumerated (DESIGN section 6)")
 
